@@ -116,7 +116,7 @@ def gen_plan(rng, tier='quick', traces=None):
         pool.append({'kind': 'tlist', 'values': [fhex(v) for v in vals], 'layout': 'list'})
     ctx = catalog.Ctx(rng, pool)
     nclients = rng.choice([1, 2, 2, 3, 3, 4])
-    kinds_enabled = rng.sample(sorted(catalog.CLIENT_KINDS), rng.randint(1, 3))
+    kinds_enabled = rng.sample(sorted(catalog.CLIENT_KINDS), rng.randint(1, 4))
     clients = []
     for _ in range(nclients):
         kind = rng.choice(kinds_enabled)
@@ -130,15 +130,17 @@ def gen_plan(rng, tier='quick', traces=None):
         runnable = [c for c in range(nclients) if nxt[c] < len(clients[c]['steps'])]
         if not runnable:
             break
-        if done and rng.random() < dup_rate:
-            c, k = rng.choice(done)
+        dupable = [(c, k) for (c, k) in done if not clients[c]['steps'][k].get('nodup')]
+        if dupable and rng.random() < dup_rate:
+            c, k = rng.choice(dupable)
             schedule.append({'c': c, 'k': k, 'dup': True})
             continue
         c = rng.choice(runnable)
         schedule.append({'c': c, 'k': nxt[c]})
         done.append((c, nxt[c]))
         nxt[c] += 1
-    for c, k in rng.sample(done, min(len(done), rng.randint(0, 4))):
+    dupable = [(c, k) for (c, k) in done if not clients[c]['steps'][k].get('nodup')]
+    for c, k in rng.sample(dupable, min(len(dupable), rng.randint(0, 4))):
         schedule.append({'c': c, 'k': k, 'dup': True})
     # per-call pristine reference for a sample of steps (fork per call is the cost)
     iso = {}
@@ -259,6 +261,13 @@ def _call_step(step, objs, results, findings, where, type_only, iso=None):
             if fn == 'caller.take':
                 i = np.asarray(args[1])
                 return ('ok', args[0][i.astype(int)])
+            if fn == 'caller.alloc':
+                return ('ok', np.zeros((int(args[0]), 2)))
+            if fn == 'caller.fill':
+                buf, src, factor, flip = args
+                buf[:, 0] = src[:, 0]
+                buf[:, 1] = (src[::-1, 1] if flip else src[:, 1]) * factor
+                return ('ok', buf)
             raise ValueError(fn)
         except Exception as e:
             return ('exc', worlds.enc_exc(e, type_only))
@@ -397,13 +406,18 @@ def run_ref_client(plan, c):
     findings = []
     type_only = _type_only(plan)
     probe = set((plan.get('iso') or {}).get(str(c), []))
-    for k, step in enumerate(plan['clients'][c]['steps']):
+    order = [e['k'] for e in plan['schedule'] if e['c'] == c and not e.get('dup')]
+    for k in order:
+        if k >= len(plan['clients'][c]['steps']) or k in results:
+            continue
+        step = plan['clients'][c]['steps'][k]
         iso = _SERVER if (k in probe and _SERVER is not None) else None
         o = _call_step(step, objs, results, findings, [None, c, k], type_only, iso)
         results[k] = o
         out[k] = _enc_outcome(o)
     for k in sorted(results):
-        if results[k][0] == 'ok' and _has_array(results[k][1]) and _enc_outcome(results[k]) != out[k]:
+        if (results[k][0] == 'ok' and _has_array(results[k][1]) and _enc_outcome(results[k]) != out[k]
+                and not plan['clients'][c]['steps'][k]['fn'].startswith('caller.')):
             f0 = plan['clients'][c]['steps'][k]['fn']
             findings.append({'oracle': 'P3', 'key': 'P3:%s' % f0, 'where': [None, c, k], 'fn': f0,
                              'detail': 'the value returned by %s (client %d step %d) changed after it was returned' % (f0, c, k)})
@@ -442,7 +456,7 @@ def run_sim(plan, stats):
         if c >= len(plan['clients']) or k >= len(plan['clients'][c]['steps']):
             continue
         step = plan['clients'][c]['steps'][k]
-        if ent.get('dup') and k not in results[c]:
+        if ent.get('dup') and (k not in results[c] or step.get('nodup')):
             continue
         if not ent.get('dup') and k in results[c]:
             continue
@@ -480,7 +494,7 @@ def run_sim(plan, stats):
         else:
             results[c][k] = o
             encs[c][k] = e
-            if o[0] == 'ok' and _has_array(o[1]):
+            if o[0] == 'ok' and _has_array(o[1]) and not step['fn'].startswith('caller.'):
                 live.add((c, k))
         if len(findings) > 30:
             break
